@@ -23,6 +23,7 @@ func init() {
 			{ID: "C03-R6", Doc: "evaluator bookkeeping: pending/todo/wait-memo/dependency counts are maintained where the events happen", Run: c03r6},
 			{ID: "C03-R7", Doc: "the task's shared wait channel is retired only by Broadcast (cleared after close; made only when absent), so no waiter misses a state change", Run: c03r7},
 			{ID: "C03-R8", Doc: "a task is ready only if every dependency is satisfied (the readiness flag is a conjunction over the dependency loop)", Run: c03r8},
+			{ID: "C03-R9", Doc: "a task goes back to TaskInit only from TaskLost (the re-election guard excludes every other state)", Run: c03r9},
 		},
 	})
 }
